@@ -39,8 +39,8 @@ from common import run_driver  # noqa: E402
 from props import c16 as M  # noqa: E402
 
 ID = 'C17'
-LEAN_MODULES = ['Py65.Props.C17']
-NAMESPACES = ['Py65.Props.C17']
+LEAN_MODULES = ['Py65.Props.C17', 'Py65.Proofs.MonRunGenEq', 'Py65.Props.C17g']
+NAMESPACES = ['Py65.Props.C17', 'Py65.Proofs.MonRunGenEq', 'Py65.Props.C17g']
 LEVEL = 'proof'
 USES_PROLOGUE = True
 USES_GEN = True
@@ -48,6 +48,15 @@ EXPECTED_THEOREMS = [
     'Py65.Props.C17.runLoop_is_iterate', 'Py65.Props.C17.run_is_iterate', 'Py65.Props.C17.run_complete',
     'Py65.Props.C17.commands_are_runs', 'Py65.Props.C17.run_variants_agree', 'Py65.Props.C17.bp_numbers_fresh',
     'Py65.Props.C17.delete_bad_number_unchanged', 'Py65.Props.C17.bp_deleted_inert',
+    # tie by regeneration: generated methods = hand model, and the theorems restated for them
+    'Py65.Proofs.MonRunGenEq.while1_eq', 'Py65.Proofs.MonRunGenEq.while2_eq', 'Py65.Proofs.MonRunGenEq.run_eq',
+    'Py65.Proofs.MonRunGenEq.do_return_eq', 'Py65.Proofs.MonRunGenEq.do_goto_eq', 'Py65.Proofs.MonRunGenEq.do_step_eq',
+    'Py65.Proofs.MonRunGenEq.do_add_breakpoint_eq', 'Py65.Proofs.MonRunGenEq.do_delete_breakpoint_eq',
+    'Py65.Proofs.MonRunGenEq.do_show_breakpoints_eq', 'Py65.Proofs.MonRunGenEq.genBpHistory_eq',
+    'Py65.Props.C17g.run_is_iterate', 'Py65.Props.C17g.run_complete', 'Py65.Props.C17g.commands_are_runs',
+    'Py65.Props.C17g.run_variants_agree', 'Py65.Props.C17g.bp_numbers_fresh',
+    'Py65.Props.C17g.delete_bad_number_unchanged', 'Py65.Props.C17g.bp_deleted_inert',
+    'Py65.Props.C17g.show_breakpoints_lists_active',
 ]
 RULE = ('one evaluation = one goto/return/step command typed into a real Monitor after a breakpoint history, '
         'on a program the bare device finishes within the fuel.  non-trivial = the run changed at least one '
@@ -55,8 +64,17 @@ RULE = ('one evaluation = one goto/return/step command typed into a real Monitor
         '[stop opcode BRK/RTS/RTI | breakpoint | single step], steps class, active-breakpoint class, '
         'deleted-breakpoint class, start-address class, first opcode of the program) tuples among those')
 TRUSTED = [
-    'hand model lean/Py65/Model/MonRun.lean (monitor.py _run/do_goto/do_return/do_step/do_add_breakpoint/'
-    'do_delete_breakpoint transcribed) -- tied to the real Monitor only by this sampled correspondence: '
+    'REGENERATED on every run: Monitor._run (both `while True` loops with break, set(self._breakpoints) with its '
+    'None entries, self._breakpoints.index(pc), the message), do_step, do_goto, do_return (stop-code lists), '
+    'do_add_breakpoint, do_delete_breakpoint (range check, None tombstones, the two-argument _output call), '
+    'do_show_breakpoints and their help_* are translated from the current py65/monitor.py by '
+    'harness/py2lean_mon.py into lean/Py65/Gen/MonRunGen.lean; Py65.Proofs.MonRunGenEq proves every generated '
+    'method equal to the hand model Py65.Model.MonRun for ALL arguments, states, fuels and ANY step function '
+    '(run_eq, do_goto_eq, do_return_eq, do_step_eq, do_add/delete/show_breakpoint(s)_eq, genBpHistory_eq); '
+    'Py65.Props.C17g restates the C17 theorems for the generated methods.  A source change that breaks an '
+    'equality, or that the translator refuses, is a broken tie',
+    'hand model lean/Py65/Model/MonRun.lean (the same methods transcribed by hand; the driver runs it) -- tied to '
+    'the real Monitor additionally by this sampled correspondence: '
     'number of steps, breakpoint report, all registers, cycle count, excycles/addcycles, every written cell and '
     'the complete backing list',
     'the generated device model Py65.Gen.* (translator, validated by C01/C03/C05) as the `step` of the tie',
@@ -64,6 +82,12 @@ TRUSTED = [
     'the harness), the breakpoint bookkeeping oracle, output parser',
     'Python facts modelled, not verified: set(list) emptiness, `in` on a set/list holding None, list.index, '
     'cmd.Cmd dispatch, shlex.split',
+    'harness/py2lean_mon.py (Python subset -> Lean; evaluation order and static resolution of try/except for the '
+    'accepted subset are modelled, not verified) and the library helpers of lean/Py65/Model/MonGenRt.lean the '
+    'generated text calls: pySet / pyIn / pyIndex / pyGetItem / pyListSet (set, in, list.index, indexing), '
+    'pyFmtD / pyFmtUX (%d, %04X), MonCmd.shlexSplit, PyStr.pyIntL (int), AddrParser.numberL / labelFor; '
+    'mpu.step() is the parameter `step` (instantiated with the generated device step by the driver); '
+    'console.noncanonical_mode / restore_mode are skipped by name; do_disassemble is an uninterpreted printer',
 ]
 ASSUMPTIONS = [
     'programs terminate: the bare device reaches the stop condition within the fuel (4000 instructions); '
@@ -76,9 +100,20 @@ ASSUMPTIONS = [
     'compared only for runs whose accesses stay inside the physical memory and never read a non-zero getc cell; '
     'the others are still checked against the bare device',
     'breakpoint arguments are single tokens (numbers in any spelling of C15 / decimal integers for delete)',
+    'tie by regeneration: the generated loops take a fuel with the accounting of the model (one unit per '
+    'mpu.step()), so the GenEq theorems need no hypothesis; the device step itself, shlex.split, int(), the address '
+    'parser and the %-conversions remain library behaviour (named helpers), the monitor-side peek mem[pc] is the '
+    'pure read St.mem (as in the hand model)',
 ]
 
 FUEL = 4000
+
+
+def pre_build(ctx):
+    """translator tie: regenerate lean/Py65/Gen/MonRunGen.lean from the current monitor.py"""
+    from props import montie
+    return montie.pre_build(ctx, 'run')
+
 GETC = M.GETC
 NOPER = {'imp': 0, 'acc': 0, 'imm': 1, 'zpg': 1, 'zpx': 1, 'zpy': 1, 'inx': 1, 'iny': 1, 'zpi': 1, 'rel': 1,
          'abs': 2, 'abx': 2, 'aby': 2, 'ind': 2, 'iax': 2}
